@@ -110,6 +110,7 @@ type FnExec struct {
 	refKeys  map[string]bool // field keys whose Int sort denotes a reference
 	allowed  map[string][]Term // per-write frame: refs that may be written, per heap key (from modifies)
 	allowedWhole map[string]bool
+	topFrame *Frame
 	anchorHits map[string]int
 	transitions map[int]*epochTransition
 	linked   map[string]bool
@@ -1015,7 +1016,10 @@ func (fr *Frame) backEdge(u, h *ssa.BasicBlock, st *State) {
 	}
 	if hs, ok := loopHdrs[fr][h.Index]; ok {
 		for i, c := range spec.Step {
-			env := fr.specEnv(work, h, nil)
+			// evaluated at the back edge: values of this iteration (range variables, temporaries) are visible
+			env := fr.specEnv(work, u, nil)
+			fr.atInside = true
+			defer func() { fr.atInside = false }()
 			henv := fr.specEnv(hs, h, nil)
 			for phi, v := range saved {
 				henv.vars[phi.Comment] = SVal{V: v, Ty: phi.Type()}
